@@ -503,6 +503,16 @@ def run(ctx):
     ctx.floor("C07-D6", 12)
     n = check_algebra(ctx)
     check_replace_params(ctx)
+    # the leaf under every modifier stack: a base gate with new parameters is the same gate (name, factory, qubit count *and*
+    # self-adjoint flag) at those parameters -- decided once, by C06-D2
+    from ..common import share_rule
+    from . import c06
+
+    def _leaf(sub):
+        ci = sub.repo.cls(f"{GATES}:MatrixFactoryGate")
+        c06.check_replace_params(sub, ci, ci.methods["replace_params"])
+
+    share_rule(ctx, "C06", _leaf, "C07-D1 reassociation-algebra")
     check_delegation(ctx)
     check_matrices(ctx)
     check_guard(ctx)
